@@ -27,7 +27,11 @@ class _Fold(ast.NodeTransformer):
         while isinstance(base, ast.Attribute):
             base = base.value
         if isinstance(base, ast.Name) and (base.id in self.skip or '#' in base.id or '@' in base.id):
-            return None
+            is_class_const = (base.id in ('self', 'cls') and self.cls is not None and isinstance(node, ast.Attribute)
+                              and isinstance(node.value, ast.Name)
+                              and self.ctx.prog.find_class_attr(self.cls, node.attr) is not None)
+            if not is_class_const:
+                return None
         try:
             v = self.ctx.ce.eval(node, self.mod, self.cls, {})
         except NotConst:
